@@ -322,11 +322,13 @@ def run_history(case, want_model_ops=True):
                 a = apply_op(conc, q)
                 flat.append(q)
                 answers.append(a)
+                # (several resolution errors can coexist; which one is reported first depends on dictionary
+                # order, which differs between two objects: errors are compared by class)
                 b = apply_op(fresh, q)
-                if canon(a) != canon(b):
+                if canon(coarse(a)) != canon(coarse(b)):
                     failures.append(("query-differs-from-from-scratch-resolution", {"query": q, "cached": a, "from_scratch": b}))
                 c = apply_op(fresh2, q)
-                if canon(a) != canon(c):
+                if canon(coarse(a)) != canon(coarse(c)):
                     failures.append(("query-differs-from-replaying-only-the-updates",
                                      {"query": q, "answer": a, "updates_only": c,
                                       "difference": K.first_difference(c, a)}))
